@@ -52,6 +52,24 @@ def rowHoldsAt (c : Composer) (i : Nat) : Bool :=
   let nx := c.rowVals ((i + 1) % n)
   rowHolds (c.gateAt i) r.a r.b r.c r.d nx.a nx.b nx.d (c.piAt i)
 
+/-- wire values of row `i` under an arbitrary assignment `w` of witness values (what an
+    adversarial prover may choose; the layout is fixed) -/
+def rowValsW (c : Composer) (w : Nat → Nat) (i : Nat) : RowVals :=
+  match c.gates[i]? with
+  | some g => ⟨w g.a, w g.b, w g.c, w g.d⟩
+  | none => ⟨0, 0, 0, 0⟩
+
+/-- row `i` holds under the assignment `w`; the next row is row `i+1` of the table (zero wires
+    past the end — every component ends on an unselected row, so this is only read inside it) -/
+def rowHoldsW (c : Composer) (w : Nat → Nat) (i : Nat) : Bool :=
+  let r := c.rowValsW w i
+  let nx := c.rowValsW w (i + 1)
+  rowHolds (c.gateAt i) r.a r.b r.c r.d nx.a nx.b nx.d (c.piAt i)
+
+/-- rows `lo ≤ i < hi` hold under `w` -/
+def rowsHoldW (c : Composer) (w : Nat → Nat) (lo hi : Nat) : Prop :=
+  ∀ i, lo ≤ i → i < hi → c.rowHoldsW w i = true
+
 /-- first failing `(row, component)` if any -/
 def firstFailure (c : Composer) : Option (Nat × String) :=
   (List.range c.paddedSize).findSome? fun i =>
